@@ -433,6 +433,12 @@ def make_param(ctx, name, ty):
         return [(ty[0], (ty[0], ty[1] if len(ty) > 1 else name))]
     if ty == "seglist":
         return [("segments", ("seglist", name))]
+    if isinstance(ty, tuple) and ty and ty[0] == "varargs":
+        out = [("()", ("vargs", []))]
+        for lab, d in make_param(ctx, name + "0", ty[1]):
+            out.append((f"({lab},)", ("vargs", [d])))
+        out.append(("(str, str)", ("vargs", [("str", name + "a"), ("str", name + "b")])))
+        return out
     if ty == "pickle-state":
         return [("state=(parts,)", ("state", "tuple")), ("state=(None,{'_val':parts})", ("state", "dict"))]
     if ty == "fresh-url":
@@ -469,6 +475,8 @@ def instantiate_param(ex, ctx, desc):
                       fresh=False)
     if kind == "pydata":
         return ("pydata-ref", name)
+    if kind == "vargs":
+        return VTuple([instantiate_param(ex, ctx, d) for d in name])
     if kind == "seglist":
         return V.VSList(V.sym_str(ctx, name, kind="segs"), fresh=False)
     if kind == "state":
